@@ -482,4 +482,320 @@ theorem buildSeg_facts (tcp v6 : Bool) (l4 : Nat) (h c : Bytes) (g n i : Nat)
     simp only [byteAt_rd] at this
     rw [this, rd_drop, hHl]
 
+/-! ### one segment: rebuilt by the kernel = the original, up to `mask` -/
+
+/-- `t` (a trimmed original packet) relative to the flushed superpacket header `h`, as segment `i` of `n`. -/
+structure SegHyp (tcp v6 : Bool) (l4 : Nat) (h t : Bytes) (g n i : Nat) : Prop where
+  hl4 : l4 = if v6 then 40 else 20
+  hmin : l4 + (if tcp then 20 else 8) ≤ h.length
+  tlen : h.length < t.length
+  tmax : t.length ≤ 65535
+  hv : (byteAt h 0 / 16 = 6) ↔ v6 = true
+  t4 : v6 = false → byteAt t 0 = 0x45 ∧ u16At t 6 % 16384 = 0 ∧ u16At t 2 = t.length
+  t6 : v6 = true → byteAt t 0 / 16 = 6 ∧ u16At t 4 + 40 = t.length
+  proto : byteAt t (if v6 then 6 else 9) = if tcp then 6 else 17
+  agree : ∀ k, k < h.length → ¬ Free tcp v6 l4 k → rd h k = rd t k
+  id : v6 = false → byteAt t 6 / 64 % 2 ≠ 1 → u16At t 4 = (u16At h 4 + i) % 65536
+  ulen : tcp = false → u16At t (l4 + 4) = t.length - l4
+  tseq : tcp = true → u32At t (l4 + 4) = (u32At h (l4 + 4) + i * g) % 4294967296
+  tfl : tcp = true → byteAt t (l4 + 13) = segFlags (byteAt h (l4 + 13)) n i
+
+theorem rd_eq_of_byteAt_eq {a b : Bytes} {i j : Nat} (h : byteAt a i = byteAt b j) : rd a i = rd b j :=
+  UInt8.toNat_inj.mp h
+
+theorem seg_core {tcp v6 : Bool} {l4 : Nat} {h t : Bytes} {g n i : Nat} (H : SegHyp tcp v6 l4 h t g n i)
+    (k : Nat)
+    (hk1 : ¬ (v6 = false ∧ (k = 10 ∨ k = 11)))
+    (hk2 : ¬ (v6 = false ∧ byteAt t 6 / 64 % 2 = 1 ∧ (k = 4 ∨ k = 5)))
+    (hk3 : k ≠ l4 + (if tcp then 16 else 6) ∧ k ≠ l4 + (if tcp then 16 else 6) + 1) :
+    rd (buildSeg tcp (h.take l4) (h.drop l4) g n i (t.drop h.length)) k = rd t k := by
+  have BF := buildSeg_facts tcp v6 l4 h (t.drop h.length) g n i H.hl4 H.hv H.hmin
+  have hc : (t.drop h.length).length = t.length - h.length := by simp
+  have htl := H.tlen; have htm := H.tmax
+  have hsum : h.length + (t.drop h.length).length = t.length := by rw [hc]; omega
+  by_cases hge : h.length ≤ k
+  · rw [BF.pay k hge, rd_drop]; congr 1; omega
+  · have hlt : k < h.length := by omega
+    by_cases hfree : Free tcp v6 l4 k
+    · rcases hfree with ⟨h6, hk⟩ | ⟨h6, hk⟩ | ⟨ht, hk⟩ | ⟨ht, hk⟩
+      · -- IPv4 fields
+        have e2 : u16At (buildSeg tcp (h.take l4) (h.drop l4) g n i (t.drop h.length)) 2 = u16At t 2 := by
+          rw [BF.v4len h6, hsum, (H.t4 h6).2.2]; omega
+        have := rd_of_u16At_eq' e2
+        rcases hk with hk | hk | hk | hk | hk | hk
+        · subst hk; exact this.1
+        · subst hk; exact this.2
+        · by_cases hdf : byteAt t 6 / 64 % 2 = 1
+          · exact absurd ⟨h6, hdf, Or.inl hk⟩ hk2
+          · have e4 := (BF.v4id h6).trans (H.id h6 hdf).symm
+            subst hk; exact (rd_of_u16At_eq' e4).1
+        · by_cases hdf : byteAt t 6 / 64 % 2 = 1
+          · exact absurd ⟨h6, hdf, Or.inr hk⟩ hk2
+          · have e4 := (BF.v4id h6).trans (H.id h6 hdf).symm
+            subst hk; exact (rd_of_u16At_eq' e4).2
+        · exact absurd ⟨h6, Or.inl hk⟩ hk1
+        · exact absurd ⟨h6, Or.inr hk⟩ hk1
+      · -- IPv6 payload length
+        have e4 : u16At (buildSeg tcp (h.take l4) (h.drop l4) g n i (t.drop h.length)) 4 = u16At t 4 := by
+          rw [BF.v6len h6, hsum]; have := (H.t6 h6).2; omega
+        have := rd_of_u16At_eq' e4
+        rcases hk with hk | hk
+        · subst hk; exact this.1
+        · subst hk; exact this.2
+      · -- UDP length
+        subst ht
+        simp only [Bool.false_eq_true, ↓reduceIte] at hk3
+        have hm := H.hmin; simp only [Bool.false_eq_true, ↓reduceIte] at hm
+        have hl4 : l4 ≤ 40 := by have := H.hl4; cases v6 <;> simp at this <;> omega
+        have e4 : u16At (buildSeg false (h.take l4) (h.drop l4) g n i (t.drop h.length)) (l4 + 4) = u16At t (l4 + 4) := by
+          rw [BF.ulen rfl, H.ulen rfl, hc]; omega
+        have := rd_of_u16At_eq' e4
+        rcases hk with hk | hk | hk | hk
+        · subst hk; exact this.1
+        · subst hk; exact this.2
+        · exact absurd hk hk3.1
+        · exact absurd hk hk3.2
+      · -- TCP sequence number and flags
+        subst ht
+        simp only [↓reduceIte] at hk3
+        have e4 := (BF.tseq rfl).trans (H.tseq rfl).symm
+        have := rd_of_u32At_eq' e4
+        rcases hk with hk | hk | hk | hk | hk | hk | hk
+        · subst hk; exact this.1
+        · subst hk; exact this.2.1
+        · subst hk; exact this.2.2.1
+        · subst hk; exact this.2.2.2
+        · subst hk; exact rd_eq_of_byteAt_eq ((BF.tfl rfl).trans (H.tfl rfl).symm)
+        · exact absurd hk hk3.1
+        · exact absurd hk hk3.2
+    · rw [BF.keep k hlt hfree, H.agree k hlt hfree]
+
+theorem u16At_congr {a b : Bytes} {j : Nat} (h1 : rd a j = rd b j) (h2 : rd a (j + 1) = rd b (j + 1)) :
+    u16At a j = u16At b j := by
+  simp only [u16At, byteAt_rd, h1, h2]
+
+theorem seg_mask_eq {tcp v6 : Bool} {l4 : Nat} {h t : Bytes} {g n i : Nat} (H : SegHyp tcp v6 l4 h t g n i) :
+    mask (buildSeg tcp (h.take l4) (h.drop l4) g n i (t.drop h.length)) = mask t := by
+  have BF := buildSeg_facts tcp v6 l4 h (t.drop h.length) g n i H.hl4 H.hv H.hmin
+  have hc : (t.drop h.length).length = t.length - h.length := by simp
+  have htl := H.tlen; have htm := H.tmax
+  have hlen : (buildSeg tcp (h.take l4) (h.drop l4) g n i (t.drop h.length)).length = t.length := by
+    rw [BF.len, hc]; omega
+  have hmin := H.hmin
+  have core := seg_core H
+  cases v6 with
+  | false =>
+    have hl4 : l4 = 20 := by have := H.hl4; simpa using this
+    subst hl4
+    obtain ⟨t0, tfrag, tl⟩ := H.t4 rfl
+    have hco : (if tcp = true then 16 else 6) < 18 := by cases tcp <;> simp
+    have ck : ∀ k, k < 20 → k ≠ 10 → k ≠ 11 → k ≠ 4 → k ≠ 5 →
+        rd (buildSeg tcp (h.take 20) (h.drop 20) g n i (t.drop h.length)) k = rd t k := by
+      intro k h1 h2 h3 h4 h5
+      exact core k (by intro ⟨_, e⟩; omega) (by intro ⟨_, _, e⟩; omega) ⟨by omega, by omega⟩
+    have pt : Plain4 tcp t := by
+      refine ⟨t0, tfrag, tl, by simpa using H.proto, ?_⟩
+      cases tcp <;> simp at hmin ⊢ <;> omega
+    have pb : Plain4 tcp (buildSeg tcp (h.take 20) (h.drop 20) g n i (t.drop h.length)) := by
+      refine ⟨?_, ?_, ?_, ?_, ?_⟩
+      · simp only [byteAt_rd]; rw [ck 0 (by omega) (by omega) (by omega) (by omega) (by omega)]; exact t0
+      · rw [u16At_congr (ck 6 (by omega) (by omega) (by omega) (by omega) (by omega))
+          (ck 7 (by omega) (by omega) (by omega) (by omega) (by omega))]; exact tfrag
+      · rw [BF.v4len rfl, hlen, hc]; omega
+      · simp only [byteAt_rd]; rw [ck 9 (by omega) (by omega) (by omega) (by omega) (by omega), ← byteAt_rd]
+        simpa using H.proto
+      · rw [hlen]; exact pt.minLen
+    have hdf : byteAt (buildSeg tcp (h.take 20) (h.drop 20) g n i (t.drop h.length)) 6 = byteAt t 6 := by
+      simp only [byteAt_rd]; rw [ck 6 (by omega) (by omega) (by omega) (by omega) (by omega)]
+    rw [mask_plain4 pb, mask_plain4 pt, hdf]
+    by_cases hd : byteAt t 6 / 64 % 2 = 1
+    · rw [if_pos hd, if_pos hd]
+      have e0 : EqOff (fun k => k = 10 ∨ k = 11 ∨ k = 4 ∨ k = 5 ∨
+          k = 20 + (if tcp = true then 16 else 6) ∨ k = 20 + (if tcp = true then 16 else 6) + 1)
+          (buildSeg tcp (h.take 20) (h.drop 20) g n i (t.drop h.length)) t :=
+        ⟨hlen, fun k hk => core k (by intro ⟨_, e⟩; exact hk (by omega)) (by intro ⟨_, _, e⟩; exact hk (by omega))
+          ⟨fun e => hk (by omega), fun e => hk (by omega)⟩⟩
+      exact (((e0.z2 10).z2 4).z2 (20 + (if tcp = true then 16 else 6))).eq (by intro k; omega)
+    · rw [if_neg hd, if_neg hd]
+      have e0 : EqOff (fun k => k = 10 ∨ k = 11 ∨
+          k = 20 + (if tcp = true then 16 else 6) ∨ k = 20 + (if tcp = true then 16 else 6) + 1)
+          (buildSeg tcp (h.take 20) (h.drop 20) g n i (t.drop h.length)) t :=
+        ⟨hlen, fun k hk => core k (by intro ⟨_, e⟩; exact hk (by omega)) (by intro ⟨_, e, _⟩; exact hd e)
+          ⟨fun e => hk (by omega), fun e => hk (by omega)⟩⟩
+      exact ((e0.z2 10).z2 (20 + (if tcp = true then 16 else 6))).eq (by intro k; omega)
+  | true =>
+    have hl4 : l4 = 40 := by have := H.hl4; simpa using this
+    subst hl4
+    obtain ⟨t0, tl⟩ := H.t6 rfl
+    have hco : (if tcp = true then 16 else 6) < 18 := by cases tcp <;> simp
+    have ck : ∀ k, k < 40 →
+        rd (buildSeg tcp (h.take 40) (h.drop 40) g n i (t.drop h.length)) k = rd t k := by
+      intro k h1
+      exact core k (by intro ⟨e, _⟩; cases e) (by intro ⟨e, _⟩; cases e) ⟨by omega, by omega⟩
+    have pt : Plain6 tcp t := by
+      refine ⟨t0, tl, by simpa using H.proto, ?_⟩
+      cases tcp <;> simp at hmin ⊢ <;> omega
+    have pb : Plain6 tcp (buildSeg tcp (h.take 40) (h.drop 40) g n i (t.drop h.length)) := by
+      refine ⟨?_, ?_, ?_, ?_⟩
+      · simp only [byteAt_rd]; rw [ck 0 (by omega)]; exact t0
+      · rw [BF.v6len rfl, hlen, hc]; omega
+      · simp only [byteAt_rd]; rw [ck 6 (by omega), ← byteAt_rd]; simpa using H.proto
+      · rw [hlen]; exact pt.minLen
+    rw [mask_plain6 pb, mask_plain6 pt]
+    have e0 : EqOff (fun k => k = 40 + (if tcp = true then 16 else 6) ∨ k = 40 + (if tcp = true then 16 else 6) + 1)
+        (buildSeg tcp (h.take 40) (h.drop 40) g n i (t.drop h.length)) t :=
+      ⟨hlen, fun k hk => core k (by intro ⟨e, _⟩; cases e) (by intro ⟨e, _⟩; cases e)
+        ⟨fun e => hk (by omega), fun e => hk (by omega)⟩⟩
+    exact (e0.z2 (40 + (if tcp = true then 16 else 6))).eq (by intro k; omega)
+
+/-! ### the flushed header -/
+
+theorem length_putU16 (b : Bytes) (off v : Nat) : (putU16 b off v).length = b.length := by
+  rw [putU16_eq, length_setBe16]
+
+theorem length_flushHdr (tcp : Bool) (s : Slot) : (flushHdr tcp s).length = min s.hdrLen s.rawPkt.length := by
+  unfold flushHdr
+  simp only
+  split <;> split <;> simp [length_putU16, slice_zero]
+
+/-- offsets `flushSlot` patches -/
+def FlushW (tcp v6 : Bool) (l4 k : Nat) : Prop :=
+  (v6 = false ∧ (k = 2 ∨ k = 3 ∨ k = 10 ∨ k = 11)) ∨ (v6 = true ∧ (k = 4 ∨ k = 5)) ∨
+  (tcp = false ∧ (k = l4 + 4 ∨ k = l4 + 5 ∨ k = l4 + 6 ∨ k = l4 + 7)) ∨
+  (tcp = true ∧ (k = l4 + 16 ∨ k = l4 + 17))
+
+theorem rd_putU16_ne (b : Bytes) (off v k : Nat) (h1 : off ≠ k) (h2 : off + 1 ≠ k) :
+    rd (putU16 b off v) k = rd b k := by
+  rw [putU16_eq]; exact rd_setBe16_ne _ _ _ _ h1 h2
+
+theorem rd_flushHdr (tcp : Bool) (s : Slot) (k : Nat) (hk : k < s.hdrLen)
+    (hw : ¬ FlushW tcp s.isV6 s.ipHdrLen k) : rd (flushHdr tcp s) k = rd s.rawPkt k := by
+  unfold flushHdr
+  simp only
+  have base : rd (slice s.rawPkt 0 s.hdrLen) k = rd s.rawPkt k := by rw [slice_zero]; exact rd_take _ _ _ hk
+  cases h6 : s.isV6 with
+  | true =>
+    rw [h6] at hw
+    have n4 : 4 ≠ k := fun e => hw (Or.inr (Or.inl ⟨rfl, Or.inl e.symm⟩))
+    have n5 : 4 + 1 ≠ k := fun e => hw (Or.inr (Or.inl ⟨rfl, Or.inr e.symm⟩))
+    cases tcp with
+    | true =>
+      have a : s.ipHdrLen + 16 ≠ k := fun e => hw (Or.inr (Or.inr (Or.inr ⟨rfl, Or.inl e.symm⟩)))
+      have b : s.ipHdrLen + 16 + 1 ≠ k := fun e => hw (Or.inr (Or.inr (Or.inr ⟨rfl, Or.inr e.symm⟩)))
+      simp only [↓reduceIte]
+      rw [rd_putU16_ne _ _ _ _ a b, rd_putU16_ne _ _ _ _ n4 n5, base]
+    | false =>
+      have a : s.ipHdrLen + 6 ≠ k := fun e => hw (Or.inr (Or.inr (Or.inl ⟨rfl, Or.inr (Or.inr (Or.inl e.symm))⟩)))
+      have b : s.ipHdrLen + 6 + 1 ≠ k := fun e => hw (Or.inr (Or.inr (Or.inl ⟨rfl, Or.inr (Or.inr (Or.inr e.symm))⟩)))
+      have c : s.ipHdrLen + 4 ≠ k := fun e => hw (Or.inr (Or.inr (Or.inl ⟨rfl, Or.inl e.symm⟩)))
+      have d : s.ipHdrLen + 4 + 1 ≠ k := fun e => hw (Or.inr (Or.inr (Or.inl ⟨rfl, Or.inr (Or.inl e.symm)⟩)))
+      simp only [Bool.false_eq_true, ↓reduceIte]
+      rw [rd_putU16_ne _ _ _ _ a b, rd_putU16_ne _ _ _ _ c d, rd_putU16_ne _ _ _ _ n4 n5, base]
+  | false =>
+    rw [h6] at hw
+    have n2 : 2 ≠ k := fun e => hw (Or.inl ⟨rfl, Or.inl e.symm⟩)
+    have n3 : 2 + 1 ≠ k := fun e => hw (Or.inl ⟨rfl, Or.inr (Or.inl e.symm)⟩)
+    have n10 : 10 ≠ k := fun e => hw (Or.inl ⟨rfl, Or.inr (Or.inr (Or.inl e.symm))⟩)
+    have n11 : 10 + 1 ≠ k := fun e => hw (Or.inl ⟨rfl, Or.inr (Or.inr (Or.inr e.symm))⟩)
+    have ip : ∀ v, rd (putU16 (((putU16 (slice s.rawPkt 0 s.hdrLen) 2 (s.hdrLen + s.totalPay)).set 10 0).set 11 0) 10 v) k
+        = rd s.rawPkt k := by
+      intro v
+      rw [rd_putU16_ne _ _ _ _ n10 n11, rd_set_ne _ _ _ _ (by omega), rd_set_ne _ _ _ _ n10,
+        rd_putU16_ne _ _ _ _ n2 n3, base]
+    cases tcp with
+    | true =>
+      have a : s.ipHdrLen + 16 ≠ k := fun e => hw (Or.inr (Or.inr (Or.inr ⟨rfl, Or.inl e.symm⟩)))
+      have b : s.ipHdrLen + 16 + 1 ≠ k := fun e => hw (Or.inr (Or.inr (Or.inr ⟨rfl, Or.inr e.symm⟩)))
+      simp only [Bool.false_eq_true, ↓reduceIte]
+      rw [rd_putU16_ne _ _ _ _ a b, ip]
+    | false =>
+      have a : s.ipHdrLen + 6 ≠ k := fun e => hw (Or.inr (Or.inr (Or.inl ⟨rfl, Or.inr (Or.inr (Or.inl e.symm))⟩)))
+      have b : s.ipHdrLen + 6 + 1 ≠ k := fun e => hw (Or.inr (Or.inr (Or.inl ⟨rfl, Or.inr (Or.inr (Or.inr e.symm))⟩)))
+      have c : s.ipHdrLen + 4 ≠ k := fun e => hw (Or.inr (Or.inr (Or.inl ⟨rfl, Or.inl e.symm⟩)))
+      have d : s.ipHdrLen + 4 + 1 ≠ k := fun e => hw (Or.inr (Or.inr (Or.inl ⟨rfl, Or.inr (Or.inl e.symm)⟩)))
+      simp only [Bool.false_eq_true, ↓reduceIte]
+      rw [rd_putU16_ne _ _ _ _ a b, rd_putU16_ne _ _ _ _ c d, ip]
+
+theorem FlushW.free {tcp v6 : Bool} {l4 k : Nat} (h : FlushW tcp v6 l4 k) : Free tcp v6 l4 k := by
+  rcases h with ⟨a, b⟩ | ⟨a, b⟩ | ⟨a, b⟩ | ⟨a, b⟩
+  · exact Or.inl ⟨a, by omega⟩
+  · exact Or.inr (Or.inl ⟨a, b⟩)
+  · exact Or.inr (Or.inr (Or.inl ⟨a, b⟩))
+  · exact Or.inr (Or.inr (Or.inr ⟨a, by omega⟩))
+
+/-! ### `headersMatch`, pointwise -/
+
+theorem beq_slice {a b : Bytes} {lo hi : Nat} (h : (slice a lo hi == slice b lo hi) = true) :
+    ∀ k, lo ≤ k → k < hi → rd a k = rd b k := by
+  intro k h1 h2
+  exact getD_of_slice_eq (by simpa using h) k h1 h2
+
+theorem hm_agree {tcp v6 : Bool} {l4 hdrLen : Nat} {a b : Bytes}
+    (h : headersMatch tcp (slice a 0 hdrLen) (slice b 0 hdrLen) v6 l4 = true)
+    (hl4 : l4 = if v6 then 40 else 20) (hmin : l4 + 8 ≤ hdrLen) (hudp : tcp = false → hdrLen = l4 + 8) :
+    ∀ k, k < hdrLen → ¬ Free tcp v6 l4 k → rd a k = rd b k := by
+  intro k hk hfree
+  have ta : rd (slice a 0 hdrLen) k = rd a k := by rw [slice_zero]; exact rd_take _ _ _ hk
+  have tb : rd (slice b 0 hdrLen) k = rd b k := by rw [slice_zero]; exact rd_take _ _ _ hk
+  rw [← ta, ← tb]
+  unfold headersMatch at h
+  split at h
+  · cases h
+  · split at h
+    · cases h
+    · rename_i hlen hip
+      simp only [Bool.not_eq_true] at hip
+      have hip' : ipHeadersMatch (slice a 0 hdrLen) (slice b 0 hdrLen) v6 = true := by
+        cases e : ipHeadersMatch (slice a 0 hdrLen) (slice b 0 hdrLen) v6 with
+        | true => rfl
+        | false => simp [e] at hip
+      by_cases hk4 : k < l4
+      · -- IP part
+        unfold ipHeadersMatch at hip'
+        cases v6 with
+        | true =>
+          simp only [↓reduceIte, Bool.and_eq_true] at hip' hl4
+          by_cases h4 : k < 4
+          · exact beq_slice hip'.1 k (by omega) h4
+          · have : 6 ≤ k := by
+              rcases Nat.lt_or_ge k 6 with h' | h'
+              · exact absurd (Free.v6 (by omega)) hfree
+              · exact h'
+            exact beq_slice hip'.2 k this (by omega)
+        | false =>
+          simp only [Bool.false_eq_true, ↓reduceIte, Bool.and_eq_true] at hip' hl4
+          by_cases h2 : k < 2
+          · exact beq_slice hip'.1.1 k (by omega) h2
+          · by_cases h6 : k < 6
+            · exact absurd (Free.v4 (by omega)) hfree
+            · by_cases h10 : k < 10
+              · exact beq_slice hip'.1.2 k (by omega) h10
+              · by_cases h12 : k < 12
+                · exact absurd (Free.v4 (by omega)) hfree
+                · exact beq_slice hip'.2 k (by omega) (by omega)
+      · -- transport part
+        cases tcp with
+        | false =>
+          simp only [Bool.false_eq_true, ↓reduceIte] at h
+          by_cases h4 : k < l4 + 4
+          · exact beq_slice h k (by omega) h4
+          · have := hudp rfl
+            exact absurd (Free.udp (by omega)) hfree
+        | true =>
+          simp only [↓reduceIte, Bool.and_eq_true] at h
+          obtain ⟨⟨⟨p1, p2⟩, p3⟩, p4⟩ := h
+          by_cases h4 : k < l4 + 4
+          · exact beq_slice p1 k (by omega) h4
+          · by_cases h8 : k < l4 + 8
+            · exact absurd (Free.tcp (by omega)) hfree
+            · by_cases h13 : k < l4 + 13
+              · exact beq_slice p2 k (by omega) h13
+              · by_cases h14 : k < l4 + 14
+                · exact absurd (Free.tcp (by omega)) hfree
+                · by_cases h16 : k < l4 + 16
+                  · exact beq_slice p3 k (by omega) h16
+                  · by_cases h18 : k < l4 + 18
+                    · exact absurd (Free.tcp (by omega)) hfree
+                    · exact getD_of_drop_eq (by simpa using p4) k (by omega)
+
 end Nebula.Lemmas.Coalesce
